@@ -222,6 +222,22 @@ WitnessRest == /\ todo[1] = <<>> /\ mode = "app" /\ S.c2s[1] = <<>> /\ S.s2c[1] 
 WitnessServed == <>[]WitnessRest
 
 -----------------------------------------------------------------------------
+(***************************************************************************)
+(* Refinement: every step of this model is a step of ServerAbs, whose      *)
+(* invariants TokenOK / CapOK are proved with TLAPS for every number of    *)
+(* clients and descriptors (ServerAbs_proofs.tla).  Property AbsRefines.   *)
+(***************************************************************************)
+AbsSt(x) == IF x = "none" THEN "none" ELSE IF x = "Closed" THEN "closed" ELSE "live"
+AbsCL == Clients \cup {0}
+Abs == INSTANCE ServerAbs WITH
+          FD <- Fds, CL <- AbsCL, MaxConn <- MaxConn,
+          st <- [f \in Fds |-> AbsSt(S.srv[f].st)],
+          peer <- [f \in Fds |-> S.srv[f].peer],
+          infl <- [f \in Fds |-> S.srv[f].infl],
+          tok <- [f \in Fds |-> [c \in AbsCL |-> Cardinality({t \in Toks(S) : t.fd = f /\ t.owner = c})]]
+AbsRefines == Abs!Spec
+
+-----------------------------------------------------------------------------
 WitnessNames == <<"two_event_batch", "refused", "fd_reused", "swept_after_respond", "closed_with_inflight",
                   "interim_sent", "error_400", "partial_write", "hup_mid_poll", "kill_returned", "flush_used",
                   "respond_on_closed", "epipe", "discard_on_error", "pipelined_yield", "size_limit_400",
